@@ -910,6 +910,9 @@ type historyCase struct {
 	ND   bool     `json:"nd"`
 	Copy bool     `json:"copy"`
 	Ops  []editOp `json:"ops"`
+	// ViaBlob: the edits are applied to the tape obtained by serializing and deserializing the parsed document
+	// (equal strings then share one place in the message buffer)
+	ViaBlob bool `json:"via_blob,omitempty"`
 }
 
 // parseModelRoots returns the model roots of a (possibly newline-delimited) document.
@@ -950,6 +953,13 @@ func runHistory(c historyCase, inv invariantSet, after func(step int, pj *simdjs
 	}
 	if err != nil {
 		return fmt.Errorf("valid document rejected: %v: %q", err, clip(c.Doc))
+	}
+	if c.ViaBlob {
+		s := simdjson.NewSerializer()
+		pj, err = s.Deserialize(s.Serialize(nil, *pj), nil)
+		if err != nil {
+			return fmt.Errorf("Deserialize(Serialize(tape)): %v", err)
+		}
 	}
 	if err := checkAgainstModel(pj, roots, c.ND, inv); err != nil {
 		return fmt.Errorf("before any edit: %v", err)
@@ -1005,7 +1015,7 @@ func roots0(roots []*rj.Node, op editOp, wantErr bool) []*rj.Node { return roots
 
 // genHistory draws a document and an operation list by simulating the model.
 func genHistory(t *rapid.T, mix opMix, maxOps int, profiles []docProfile) historyCase {
-	c := historyCase{ND: rapid.IntRange(0, 3).Draw(t, "nd") == 0, Copy: rapid.Bool().Draw(t, "copy")}
+	c := historyCase{ND: rapid.IntRange(0, 3).Draw(t, "nd") == 0, Copy: rapid.Bool().Draw(t, "copy"), ViaBlob: rapid.IntRange(0, 4).Draw(t, "viablob") == 0}
 	p := profiles[rapid.IntRange(0, len(profiles)-1).Draw(t, "profile")]
 	if c.ND {
 		n := rapid.IntRange(1, 3).Draw(t, "lines")
